@@ -8,7 +8,8 @@ THEOREMS = ["Bufr.C05.C05_decode_total", "Bufr.C05.C05_expansion_bounded", "Bufr
 RULE = ("valid messages of the C01/C02 space (own encoder) mutated at the data-section level (truncation at every "
         "octet class, bit flips, random tails, wrong subset counts incl. 0 and 65535, compression flag toggled, "
         "descriptor lists with unknown/ill-formed/huge-replication descriptors) and at the message level (section "
-        "lengths, total length, truncation, nested start markers, random bytes); plus pure random byte strings. "
+        "lengths, total length, truncation, nested start markers, random bytes); pure random byte strings; compressed "
+        "data whose delayed replication factors differ between subsets. "
         "distinct = distinct (mutation kind, outcome class)")
 ASSUMPTIONS = c01.ASSUMPTIONS + ["the process is the harness: exit() is intercepted at link time, the abort handler is the application's"]
 P = c01.P
@@ -88,6 +89,38 @@ def mutatem(rng, kind, ed, flag, nsub, descs, s4):
         if rng.random() < 0.5: m[0:4] = b"BUFR"
     return bytes(m)
 
+def factor_scenarios(rng, n):
+    """compressed data whose delayed replication factor column is not constant (94.6.3 forbids it): small
+    factors that differ between subsets, nested factors, a random tail"""
+    out = []
+    for i in range(n):
+        name = rng.choice(["cur", "syn", "v13"])
+        B, D = P[name]
+        nums = [d for d, e in B.items() if e[3] == regs.NUMERIC and regs.X(d) != 31 and 1 <= e[2] <= 24]
+        bits = []
+        def put(v, w): bits.extend((v >> (w - 1 - k)) & 1 for k in range(w))
+        def const(d): put(rng.randrange(1 << B[d][2]), B[d][2]); put(0, 6)
+        pre = [rng.choice(nums) for _ in range(rng.choice([0, 0, 1, 2]))]
+        body = [rng.choice(nums) for _ in range(rng.choice([1, 1, 2, 3]))]
+        fac = rng.choice([31001, 31001, 31002, 31000])
+        nsub = rng.choice([2, 3, 4])
+        descs = pre + [100000 + 1000 * len(body), fac] + body + [rng.choice(nums) for _ in range(rng.choice([0, 1]))]
+        if rng.random() < 0.25:
+            descs = pre + [100000 + 1000 * (len(body) + 2), fac, 101000, rng.choice([31001, 31000])] + body
+        for d in pre: const(d)
+        w = B[fac][2]
+        nb = rng.choice([1, 1, 2, 3])
+        put(rng.choice([0, 0, 1, 2]), w); put(min(nb, w) if rng.random() < 0.9 else w + 1, 6)
+        for _ in range(nsub): put(rng.randrange(1 << nb), nb)
+        for _ in range(rng.choice([0, 8, 40, 200])): bits.append(rng.randrange(2))
+        while len(bits) % 8: bits.append(0)
+        s4 = bytes(int("".join(map(str, bits[k:k + 8])), 2) for k in range(0, len(bits), 8))
+        ls = ["T.use " + name, "ds.decode %d 1 64 %d 0 0 %s %s" % (rng.choice([3, 4]), nsub, ",".join("%06d" % d for d in descs), s4.hex() or "-")]
+        for k in range(nsub):
+            ls += ["dd.list %d" % k, "dd.vals %d" % k]
+        out.append(Scenario("cfac-%d" % i, ls, {"kind": "compressed-factor", "tables": name}))
+    return out
+
 def scenarios(rng, tier, runner):
     n = 160 if tier == "quick" else 3000
     stage1 = []
@@ -122,6 +155,7 @@ def scenarios(rng, tier, runner):
             for k in range(min(nsub, 2)):
                 ls += ["dd.list %d" % k, "dd.vals %d" % k]
             out.append(Scenario("msg-%s-%s" % (kind, s.name), ls, {"kind": kind, "tables": s.meta["tables"]}))
+    out += factor_scenarios(rng, 120 if tier == "quick" else 2500)
     return out
 
 def compare(scn, lscn, cr, lr):
